@@ -3,7 +3,8 @@
 Every run of a history is executed in a forked child of this process (autofit is imported
 once).  The child installs a `sys.addaudithook` that records every file-system mutation under
 the case's output directory (open for write/append, unlink, rename) and, when the run has a
-crash spec `[k, variant]`, kills the process (`os._exit`) at mutation event `k`:
+crash spec {kind, role, occ, variant}, kills the process (`os._exit`) at mutation event `k`:
+    (k = index of the `occ`-th event of kind `kind` on the file `role`)
     variant "before": just before event k is performed (everything earlier is complete)
     variant "empty" : event k's file is created / truncated to zero length, then death
     variant "half"  : event k is performed completely, then -- just before the next mutation
@@ -44,6 +45,7 @@ ROLES = {
     "files/search_internal/.start_time": "StartTime",
     "files/search_internal/.time": "Time",
     "files/search_internal/search_internal.dill": "Dill",
+    "files/search_internal/search_internal.dill.tmp": "DillTmp",
     "files/samples_summary.json": "Summary",
     "files/samples_info.json": "SamplesInfo",
     "files/samples.csv": "SamplesCsv",
@@ -106,6 +108,20 @@ def config_dir(case):
     return d
 
 
+def role_of(rel):
+    """fit/<id>/<sub> -> role ; fit/<id>.zip -> Zip."""
+    parts = rel.split("/")
+    if len(parts) == 2 and parts[1].endswith(".zip"):
+        return "Zip"
+    if len(parts) == 2 and parts[1].endswith(".zip.tmp"):
+        return "ZipTmp"
+    if len(parts) < 3:
+        return "Other:" + rel
+    sub = "/".join(parts[2:])
+    return ROLES.get(sub, "Other:" + sub)
+
+
+
 # --------------------------------------------------------------------------------------
 # child side
 # --------------------------------------------------------------------------------------
@@ -119,48 +135,60 @@ class Hook:
         self.active = True
         self.last = None  # (kind, path) of the latest mutation event
         self.extra = {}
+        self.ck = None    # index of the mutation event at which the process dies
+        self.occ = 0
 
     def rel(self, p):
         return p[len(self.root):]
 
     def die(self, truncated=None):
         self.active = False
-        rep = {"outcome": "crashed", "trace": self.trace, "truncated": truncated}
+        rep = {"outcome": "crashed", "trace": self.trace, "truncated": truncated, "crash_index": self.ck}
         rep.update(self.extra)
         with open(self.report_path, "w") as f:
             json.dump(rep, f)
         os._exit(99)
 
-    def event(self, kind, path):
+    def event(self, kind, path, src=None):
         """Called just BEFORE mutation `kind` on absolute `path`."""
         k = len(self.trace)
+        rel = self.rel(path)
         if self.crash is not None:
-            ck, variant = self.crash
-            if variant == "half" and k == ck + 1:
-                self.cut_half()
-            if k == ck and variant == "before":
-                self.die()
-            if k == ck and variant == "empty":
-                if kind in ("W", "ZW"):
-                    self.active = False
-                    os.makedirs(os.path.dirname(path), exist_ok=True)
-                    open(path, "w").close()
-                    self.trace.append([kind, self.rel(path)])
-                    self.die([self.rel(path), "empty"])
-                elif kind == "A":
-                    self.active = False
-                    os.makedirs(os.path.dirname(path), exist_ok=True)
-                    open(path, "a").close()
-                    self.trace.append([kind, self.rel(path)])
-                    self.die([self.rel(path), "empty"] if os.path.getsize(path) == 0 else None)
-                else:
+            variant = self.crash["variant"]
+            if self.ck is None:
+                key = (kind, role_of(rel))
+                if key == (self.crash["kind"], self.crash["role"]):
+                    n = self.occ
+                    self.occ += 1
+                    if n == self.crash.get("occ", 0):
+                        self.ck = k
+            ck = self.ck
+            if ck is not None:
+                if variant == "half" and k == ck + 1:
+                    self.cut_half()
+                if k == ck and variant == "before":
                     self.die()
-        self.trace.append([kind, self.rel(path)])
+                if k == ck and variant == "empty":
+                    if kind in ("W", "ZW", "ZTW"):
+                        self.active = False
+                        os.makedirs(os.path.dirname(path), exist_ok=True)
+                        open(path, "w").close()
+                        self.trace.append([kind, rel])
+                        self.die([rel, "empty"])
+                    elif kind == "A":
+                        self.active = False
+                        os.makedirs(os.path.dirname(path), exist_ok=True)
+                        open(path, "a").close()
+                        self.trace.append([kind, rel])
+                        self.die([rel, "empty"] if os.path.getsize(path) == 0 else None)
+                    else:
+                        self.die()
+        self.trace.append([kind, rel] if src is None else [kind, rel, src])
         self.last = (kind, path)
 
     def cut_half(self):
         kind, path = self.last
-        if kind in ("W", "ZW", "A") and os.path.exists(path):
+        if kind in ("W", "ZW", "ZTW", "A") and os.path.exists(path):
             size = os.path.getsize(path)
             self.active = False
             with open(path, "r+b") as f:
@@ -170,9 +198,8 @@ class Hook:
 
     def final(self):
         """End of the run: a pending `half` crash on the last event fires here."""
-        if self.crash is not None:
-            ck, variant = self.crash
-            if variant == "half" and len(self.trace) == ck + 1:
+        if self.crash is not None and self.ck is not None:
+            if self.crash["variant"] == "half" and len(self.trace) == self.ck + 1:
                 self.cut_half()
 
     def __call__(self, ev, args):
@@ -190,7 +217,7 @@ class Hook:
                 if not p.startswith(self.root):
                     return
                 if flags & os.O_TRUNC or (flags & os.O_CREAT and not flags & os.O_APPEND):
-                    self.event("ZW" if p.endswith(".zip") else "W", p)
+                    self.event("ZW" if p.endswith(".zip") else ("ZTW" if p.endswith(".zip.tmp") else "W"), p)
                 elif flags & os.O_APPEND:
                     self.event("A", p)
             elif ev == "os.remove":
@@ -202,8 +229,8 @@ class Hook:
                 src, dst = args[0], args[1]
                 s = self.full(src, args[2])
                 d = self.full(dst, args[3])
-                if d.startswith(self.root) or s.startswith(self.root):
-                    self.event("MV:" + (self.rel(s) if s.startswith(self.root) else s), d)
+                if d.startswith(self.root) and s.startswith(self.root):
+                    self.event("MV", d, src=self.rel(s))
         except SystemExit:
             raise
 
@@ -231,8 +258,7 @@ def result_info(result):
         out["samples_ll"] = [hexf(s.log_likelihood) for s in result.samples.sample_list]
         out["samples_par"] = [[hexf(v) for v in s.parameter_lists_for_model(result.samples.model)]
                               for s in result.samples.sample_list]
-    si = result.search_internal
-    out["internal"] = None if si is None else type(si).__name__
+    out["internal_in_memory"] = getattr(result, "_search_internal", None) is not None
     return out
 
 
@@ -274,19 +300,6 @@ def child(case, outdir, run_index, crash, report_path):
 # parent side
 # --------------------------------------------------------------------------------------
 
-def role_of(rel):
-    """fit/<id>/<sub> -> role ; fit/<id>.zip -> Zip."""
-    parts = rel.split("/")
-    if len(parts) == 2 and parts[1].endswith(".zip"):
-        return "Zip"
-    if len(parts) == 2 and parts[1].endswith(".zip.tmp"):
-        return "ZipTmp"
-    if len(parts) < 3:
-        return "Other:" + rel
-    sub = "/".join(parts[2:])
-    return ROLES.get(sub, "Other:" + sub)
-
-
 def tag_of_ll(x):
     return int(max(0.0, -float(x)) // 100.0) if x is not None else None
 
@@ -301,7 +314,7 @@ def file_tag(role, path):
         if role in ("SamplesInfo", "SearchJson", "ModelJson", "InfoJson"):
             json.load(open(path))
             return True, None
-        if role == "Dill":
+        if role in ("Dill", "DillTmp"):
             with open(path, "rb") as f:
                 obj = dill.load(f)
             if obj is None:
@@ -311,7 +324,7 @@ def file_tag(role, path):
             return True, tag_of_ll(float(np.max(obj.log_posterior_list)))
         if role == "SamplesCsv":
             import csv
-            rows = list(csv.DictReader(open(path)))
+            rows = list(csv.DictReader(open(path), skipinitialspace=True))
             lls = [float(r["log_likelihood"].strip()) for r in rows]
             return (len(lls) > 0), (tag_of_ll(max(lls)) if lls else None)
         if role == "StartTime":
@@ -387,15 +400,16 @@ def update_partial(partial, rep):
             if src in partial:
                 partial[rel] = partial.pop(src)
     t = rep.get("truncated")
-    if t:
+    if t and role_of(t[0]) not in ("Marker", "Log"):
         partial[t[0]] = t[1]
 
 
 def canon_trace(trace):
     out = []
-    for kind, rel in trace:
-        if kind.startswith("MV:"):
-            out.append(["MV", role_of(kind[3:]) + ">" + role_of(rel)])
+    for ev in trace:
+        kind, rel = ev[0], ev[1]
+        if kind == "MV":
+            out.append(["MV", role_of(ev[2]) + ">" + role_of(rel)])
         else:
             out.append([kind, role_of(rel)])
     return out
@@ -428,6 +442,7 @@ def run_history(case, idx):
             "outcome": rep["outcome"], "msg": rep.get("msg"),
             "trace": canon_trace(rep.get("trace", [])),
             "nevents": len(rep.get("trace", [])),
+            "crash_index": rep.get("crash_index"),
             "truncated": [role_of(rep["truncated"][0]), rep["truncated"][1]] if rep.get("truncated") else None,
             "evals": rep.get("evals"),
             "result": res,
